@@ -80,6 +80,19 @@ func (n *Property) Inject(metas []*Meta) error {
 		return nil
 	}
 
+	elemType := n.Type
+	if k := n.Type.Kind(); k == reflect.Slice || k == reflect.Array {
+		elemType = n.Type.Elem()
+	}
+	for _, m := range metas {
+		if !m.Value.Type().AssignableTo(elemType) {
+			if isRequired {
+				return errors.Errorf("inject '%s': component '%s' of type %s is not assignable to %s", n, m.Name(), m.Value.Type(), elemType)
+			}
+			return nil
+		}
+	}
+
 	switch n.Type.Kind() {
 	case reflect.Slice, reflect.Array:
 		n.Value.Set(reflect.MakeSlice(n.Type, len(metas), len(metas)))
